@@ -10,12 +10,15 @@
   Proved (for the code after fix commits 5478a01 f64c543 ef3ade7 bc3fd85 b35c36c): every client that
   stays inside the stated protocol (`InProtocol`, computed on the unchunked machine alone) gets the
   same results from the chunked byte source under every schedule — `io.EOF` with or after the
-  last bytes — and no index panic.  What the protocol still excludes: reading on after the
-  stop-word test fired, `newLit`/`endLit`/`nextPos` misuse, and one residual defect: a positive
-  `zshNumRange` answer that needs more than 64 bytes (refuted on the model below, replayed on the
-  Go code by the harness).
+  last bytes.  Exactly three things remain excluded (`Admissible`), each with a counter-example
+  theorem below: (a) reading on after the stop-word test fired (by design: the lexer has been told
+  to stop and `fill` refuses to read), (b) `nextPos` after an error (`errPass` parks the cursor at
+  `len(p.bs)+1`, whatever the buffer holds), (c) the residual defect C07-zshnumrange-long: a
+  positive `zshNumRange` answer that is not decided by the first 64 bytes.  The two places where Go
+  panics (`zshNumRange` at the end of input, `endLit` on a too short literal) panic under every
+  schedule alike and are outcomes of `client_sched_indep_partial`, not exclusions.
 -/
-import ShVerif.Proofs.C07Pos
+import ShVerif.Proofs.C07Full
 import ShVerif.Gen.C07
 namespace ShVerif.Props.C07
 open ShVerif ShVerif.L2 ShVerif.C07
@@ -75,6 +78,9 @@ def outcome {α : Type} (x : M (α × St)) : Option α :=
 
 /-! ## primitives -/
 
+/-- `Sim`-related and the stop-word test has not fired -/
+def Live (s₁ s₂ : St) : Prop := ∃ a, R s₁ a ∧ R s₂ a ∧ a.halted = false
+
 /-- full statement (still false because of `zshNumRange`, see `prim_sched_indep_fails`): every
     primitive maps `Sim`-related states to equal results, for all schedules -/
 def prim_sched_indep_statement : Prop :=
@@ -85,46 +91,75 @@ def prim_sched_indep_statement : Prop :=
     (outcome s₁.zshNum = outcome s₂.zshNum) ∧
     (∀ r, outcome (s₁.stopAt r) = outcome (s₂.stopAt r))
 
-/-- `rune` does not depend on the schedule (`ok`: the stop word has not fired). -/
-theorem rune_sched_indep_partial {s₁ s₂ : St} {a : LSt} (h1 : R s₁ a) (h2 : R s₂ a)
-    (hok : a.rune.2.ok = true) :
+theorem live_ok {s₁ s₂ : St} (h : Live s₁ s₂) :
+    ∃ a, R s₁ a ∧ R s₂ a ∧ a.halted = false ∧ a.ok = true := by
+  obtain ⟨a, h1, h2, hh⟩ := h
+  exact ⟨{ a with ok := true }, h1.setOk true, h2.setOk true, hh, rfl⟩
+
+/-- **`rune` does not depend on the schedule** (as long as the stop word has not fired). -/
+theorem rune_sched_indep {s₁ s₂ : St} (h : Live s₁ s₂) :
     ∃ v s₁' s₂', s₁.rune = .ok (v, s₁') ∧ s₂.rune = .ok (v, s₂') ∧ Sim s₁' s₂' := by
+  obtain ⟨a, h1, h2, hh, hk⟩ := live_ok h
+  have hok := rune_ok_of_live hk hh
   obtain ⟨s1', e1, r1⟩ := rune_refines h1 hok
   obtain ⟨s2', e2, r2⟩ := rune_refines h2 hok
   exact ⟨_, s1', s2', e1, e2, _, r1, r2⟩
 
-/-- `peek` does not depend on the schedule (`ok`: the stop word has not fired). -/
-theorem peek_sched_indep_partial {s₁ s₂ : St} {a : LSt} (h1 : R s₁ a) (h2 : R s₂ a)
-    (hok : a.peek.2.ok = true) :
+/-- **`peek` does not depend on the schedule.** -/
+theorem peek_sched_indep {s₁ s₂ : St} (h : Live s₁ s₂) :
     ∃ v s₁' s₂', s₁.peek = .ok (v, s₁') ∧ s₂.peek = .ok (v, s₂') ∧ Sim s₁' s₂' := by
+  obtain ⟨a, h1, h2, hh, hk⟩ := live_ok h
+  have hok := peek_ok_of_live hk hh
   obtain ⟨s1', e1, r1⟩ := peek_refines h1 hok
   obtain ⟨s2', e2, r2⟩ := peek_refines h2 hok
   exact ⟨_, s1', s2', e1, e2, _, r1, r2⟩
 
-/-- `peekTwo` does not depend on the schedule any more (`ok`: the stop word has not fired). -/
-theorem peekTwo_sched_indep_partial {s₁ s₂ : St} {a : LSt} (h1 : R s₁ a) (h2 : R s₂ a)
-    (hok : a.peekTwo.2.2.ok = true) :
+/-- **`peekTwo` does not depend on the schedule** (since f64c543). -/
+theorem peekTwo_sched_indep {s₁ s₂ : St} (h : Live s₁ s₂) :
     ∃ v w s₁' s₂', s₁.peekTwo = .ok (v, w, s₁') ∧ s₂.peekTwo = .ok (v, w, s₂') ∧ Sim s₁' s₂' := by
+  obtain ⟨a, h1, h2, hh, hk⟩ := live_ok h
+  have hok := peekTwo_ok_of_live hk hh
   obtain ⟨s1', e1, r1⟩ := peekTwo_refines h1 hok
   obtain ⟨s2', e2, r2⟩ := peekTwo_refines h2 hok
   exact ⟨_, _, s1', s2', e1, e2, _, r1, r2⟩
 
-/-- the stop-word test does not depend on the schedule any more -/
-theorem stopAt_sched_indep_partial {s₁ s₂ : St} {a : LSt} (r : Nat) (h1 : R s₁ a) (h2 : R s₂ a)
-    (hok : (a.stopAt r).2.ok = true) :
+/-- **The stop-word test does not depend on the schedule** (since b35c36c). -/
+theorem stopAt_sched_indep {s₁ s₂ : St} (r : Nat) (h : Live s₁ s₂) :
     ∃ v s₁' s₂', s₁.stopAt r = .ok (v, s₁') ∧ s₂.stopAt r = .ok (v, s₂') ∧ Sim s₁' s₂' := by
+  obtain ⟨a, h1, h2, hh, hk⟩ := live_ok h
+  have hok := stopAt_ok_of_live r hk hh
   obtain ⟨s1', e1, r1⟩ := stopAt_refines h1 r hok
   obtain ⟨s2', e2, r2⟩ := stopAt_refines h2 r hok
   exact ⟨_, s1', s2', e1, e2, _, r1, r2⟩
 
+/-- **`newLit` does not depend on the schedule, nor on the buffer** (since cb62b3c): no hypothesis. -/
+theorem newLit_sched_indep {s₁ s₂ : St} (r : Nat) (h : Sim s₁ s₂) :
+    ∃ s₁' s₂', s₁.newLit r = .ok s₁' ∧ s₂.newLit r = .ok s₂' ∧ Sim s₁' s₂' := by
+  obtain ⟨a, h1, h2⟩ := h
+  obtain ⟨s1', e1, r1⟩ := newLit_refines h1 r
+  obtain ⟨s2', e2, r2⟩ := newLit_refines h2 r
+  exact ⟨s1', s2', e1, e2, _, r1, r2⟩
+
 /-- `zshNumRange` does not depend on the schedule when a positive answer is decided within the
-    first 64 bytes (and the cursor is not past the end of the buffer) -/
+    first 64 bytes (residual finding C07-zshnumrange-long otherwise) … -/
 theorem zshNum_sched_indep_partial {s₁ s₂ : St} {a : LSt} (h1 : R s₁ a) (h2 : R s₂ a)
-    (hok : a.zshNum.2.ok = true) :
+    (hh : a.halted = false) (hr : a.r ≠ runeEOF)
+    (hcut : St.zshScan a.rest = .yes → St.zshScan (a.rest.take 64) = .yes) :
     ∃ v s₁' s₂', s₁.zshNum = .ok (v, s₁') ∧ s₂.zshNum = .ok (v, s₂') ∧ Sim s₁' s₂' := by
-  obtain ⟨s1', e1, r1⟩ := zshNum_refines h1 hok
-  obtain ⟨s2', e2, r2⟩ := zshNum_refines h2 hok
+  have hok : ({ a with ok := true } : LSt).zshNum.2.ok = true :=
+    (zshNum_ok_iff _).mpr ⟨rfl, hh, hr, hcut⟩
+  obtain ⟨s1', e1, r1⟩ := zshNum_refines (h1.setOk true) hok
+  obtain ⟨s2', e2, r2⟩ := zshNum_refines (h2.setOk true) hok
   exact ⟨_, s1', s2', e1, e2, _, r1, r2⟩
+
+/-- … and at the end of input (`p.r == runeEOF`, cursor past the buffer) it panics under every
+    schedule alike. -/
+theorem zshNum_at_eof_panics {s₁ s₂ : St} {a : LSt} (h1 : R s₁ a) (h2 : R s₂ a)
+    (hh : a.halted = false) (hr : a.r = runeEOF) :
+    outcome s₁.zshNum = none ∧ outcome s₂.zshNum = none := by
+  obtain ⟨f1, e1⟩ := zshNum_panics h1 hr hh
+  obtain ⟨f2, e2⟩ := zshNum_panics h2 hr hh
+  rw [e1, e2]; exact ⟨rfl, rfl⟩
 
 /-! ## client programs -/
 
@@ -143,14 +178,38 @@ theorem client_refines_spec {α : Type} (p : Prog α) (input stop : List Byte) (
   obtain ⟨s', h, _⟩ := client_refines p (R_init input sc e stop hs) hp
   exact ⟨s', h⟩
 
-/-- **Schedule independence of client programs** (the property, on the byte layer): inside the
-    protocol, any two schedules of the same bytes give the same result. -/
+/-- **Schedule independence of client programs** (the property, on the byte layer): for every
+    input, every stop word, every two read schedules (any chunk lengths, zero-length reads,
+    `io.EOF` with or after the last bytes) and every client program over
+    {rune, peek, peekTwo, zshNumRange, stop-word test, newLit, endLit, nextPos, literal-buffer and
+    error operations} that is `Admissible` — (a) no reading after the stop word fired, (b) no
+    `nextPos` after an error, (c) no positive `zshNumRange` answer beyond 64 bytes — both runs give
+    the same result, or both panic (`zshNumRange` at the end of input, `endLit` on a too short
+    literal). -/
 theorem client_sched_indep_partial {α : Type} (p : Prog α) (input stop : List Byte)
-    (sc₁ sc₂ : List Nat) (e₁ e₂ : Bool) (hs : stop.length ≤ 4) (hp : InProtocol p input stop) :
+    (sc₁ sc₂ : List Nat) (e₁ e₂ : Bool) (hs : stop.length ≤ 4) (hp : Admissible p input stop) :
+    outcome (p.run (init input sc₁ e₁ stop)) = (specRunF p (LSt.init input stop)).result ∧
+    outcome (p.run (init input sc₂ e₂ stop)) = (specRunF p (LSt.init input stop)).result := by
+  have h1 := client_refinesF p (R_init input sc₁ e₁ stop hs) hp
+  have h2 := client_refinesF p (R_init input sc₂ e₂ stop hs) hp
+  cases hr : specRunF p (LSt.init input stop) with
+  | done v a =>
+    rw [hr] at h1 h2
+    obtain ⟨s1, e1, _⟩ := h1
+    obtain ⟨s2, e2, _⟩ := h2
+    rw [e1, e2]; exact ⟨rfl, rfl⟩
+  | panic a =>
+    rw [hr] at h1 h2
+    obtain ⟨f1, e1⟩ := h1
+    obtain ⟨f2, e2⟩ := h2
+    rw [e1, e2]; exact ⟨rfl, rfl⟩
+
+/-- the corollary in the words of the property -/
+theorem client_sched_indep_any_two {α : Type} (p : Prog α) (input stop : List Byte)
+    (sc₁ sc₂ : List Nat) (e₁ e₂ : Bool) (hs : stop.length ≤ 4) (hp : Admissible p input stop) :
     outcome (p.run (init input sc₁ e₁ stop)) = outcome (p.run (init input sc₂ e₂ stop)) := by
-  obtain ⟨s1, h1⟩ := client_refines_spec p input stop sc₁ e₁ hs hp
-  obtain ⟨s2, h2⟩ := client_refines_spec p input stop sc₂ e₂ hs hp
-  rw [h1, h2]; rfl
+  obtain ⟨h1, h2⟩ := client_sched_indep_partial p input stop sc₁ sc₂ e₁ e₂ hs hp
+  rw [h1, h2]
 
 /-- C06 on the byte layer: inside the protocol no primitive panics (index / slice bounds), hangs
     in `fill`, or exhausts the model's recursion budget. -/
@@ -195,6 +254,15 @@ theorem invalid_byte_never_reaches_newLit (a : LSt) (ha : a.err = none)
     (hd : decodeRune a.rest = (runeError, 1)) :
     (LSt.runeDecode a).r = runeEOF ∧ (LSt.runeDecode a).err ≠ none :=
   runeDecode_invalid a ha hd
+
+/-- the stop-word test applied to `a` before anything was read, stop word `a`, empty input -/
+def pStopFirst : Prog Int := .stopAt 97 fun _ => .pos fun o _ _ => .ret o
+
+theorem pos_nonneg_fails : ¬ bytesrc_pos_nonneg_statement := by
+  intro h
+  have := h Int pStopFirst [] [97] (by unfold InProtocol; decide +kernel) (by decide +kernel)
+  revert this
+  decide +kernel
 
 /-! ## the five fixed defects: the old witnesses now agree on the model -/
 
@@ -244,6 +312,26 @@ theorem zshNum_long_sched_dep :
     outcome (pZsh.run (init longRange [] false)) = some true ∧
     outcome (pZsh.run (init longRange (List.replicate 70 1) false)) = some false := by decide +kernel
 
+/-! ## the other two exclusions are needed as well -/
+
+/-- `r := rune(); stop-word test; rune()` with stop word `$` on `$ab` -/
+def pAfterStop : Prog Nat := .rune fun r => .stopAt r fun _ => .rune fun x => .ret x
+/-- `rune(); errPass; nextPos()` on `abc` -/
+def pPosAfterErr : Prog Int := .rune fun _ => .errPass (.pos fun o _ _ => .ret o)
+
+/-- (a) after the stop word fired `fill` refuses to read: `rune` sees the bytes that happen to be
+    buffered (`a` when read at once) or the end of input (one byte at a time) -/
+theorem rune_after_stop_sched_dep :
+    outcome (pAfterStop.run (init [36, 97, 98] [] false [36])) = some 97 ∧
+    outcome (pAfterStop.run (init [36, 97, 98] [1, 1, 1] false [36])) = some runeEOF := by
+  decide +kernel
+
+/-- (b) after an error the cursor is parked at `len(p.bs)+1`: `nextPos` is the buffer length -/
+theorem pos_after_error_sched_dep :
+    outcome (pPosAfterErr.run (init [97, 98, 99] [] false)) = some 3 ∧
+    outcome (pPosAfterErr.run (init [97, 98, 99] [1, 1, 1] false)) = some 1 := by
+  decide +kernel
+
 theorem client_sched_indep_fails : ¬ client_sched_indep_statement := by
   intro h
   have := h Bool pZsh longRange [] [] (List.replicate 70 1) false false
@@ -254,8 +342,8 @@ theorem prim_sched_indep_fails : ¬ prim_sched_indep_statement := by
   intro h
   -- the two states after one `rune()` over the long range, read at once and one byte at a time
   obtain ⟨v, s1, s2, e1, e2, hs⟩ :=
-    rune_sched_indep_partial (R_init longRange [] false [] (by decide))
-      (R_init longRange (List.replicate 70 1) false [] (by decide)) (by decide +kernel)
+    rune_sched_indep ⟨LSt.init longRange [], R_init longRange [] false [] (by decide),
+      R_init longRange (List.replicate 70 1) false [] (by decide), rfl⟩
   have hz := (h s1 s2 hs).2.2.2.1
   have a1 := zshNum_long_sched_dep.1
   have a2 := zshNum_long_sched_dep.2
@@ -285,5 +373,14 @@ example : InProtocol pDemo [92, 10, 195, 169, 120, 0, 121] [120, 121] := by
 example : (specRun pDemo (LSt.init [92, 10, 195, 169, 120, 0, 121] [120, 121])).1
     = (233, 169, false, [195, 169], false, 4) := by
   decide +kernel
+
+example : Admissible pDemo [92, 10, 195, 169, 120, 0, 121] [120, 121] := by
+  unfold Admissible; decide +kernel
+
+/-- an admissible client that panics (under every schedule): `rune(); endLit()` without `newLit` -/
+def pShortLit : Prog (List Byte) := .rune fun _ => .endLit fun l => .ret l
+
+example : Admissible pShortLit [97] [] ∧ (specRunF pShortLit (LSt.init [97] [])).result = none := by
+  unfold Admissible; decide +kernel
 
 end ShVerif.Props.C07
